@@ -441,7 +441,7 @@ def wrap(x, signed, n_word):
 
 def get_sizes_from_dtype(dtype):
     if isinstance(dtype, str):
-        head, props = dtype.split('-')
+        head, props = dtype.split('-', 1)
         if head == 'fxp':
             # sign
             if props[0] == 's':
@@ -452,8 +452,8 @@ def get_sizes_from_dtype(dtype):
                 raise ValueError('dtype sign specifier should be `s` or `u`')
 
             # sizes
-            if '-' in props:
-                props, _ = props.split('-')
+            if props.endswith('-complex'):
+                props = props[:-len('-complex')]
 
             n_word, n_frac = props[1:].split('/')
             n_word = int(n_word)
